@@ -1,5 +1,29 @@
 """Canonicalisation helpers shared by the harness modules."""
+import contextlib
+import logging
 import struct
+
+
+@contextlib.contextmanager
+def debug_logging(on):
+    """run the real code with the `pymodbus` loggers at DEBUG (as every shipped example does) or as they are: log statements
+    are code too - what they evaluate must not change what the library does.  Nothing is printed."""
+    if not on:
+        yield
+        return
+    lg = logging.getLogger('pymodbus')
+    if not any(isinstance(h, logging.NullHandler) for h in lg.handlers):
+        lg.addHandler(logging.NullHandler())
+    saved_level, saved_prop, saved_disable = lg.level, lg.propagate, logging.root.manager.disable
+    lg.setLevel(logging.DEBUG)
+    lg.propagate = False
+    logging.disable(logging.NOTSET)
+    try:
+        yield
+    finally:
+        lg.setLevel(saved_level)
+        lg.propagate = saved_prop
+        logging.disable(saved_disable)
 
 
 def errkind(e):
